@@ -6,6 +6,7 @@ import (
 	"os"
 	"path/filepath"
 	"strings"
+	"time"
 
 	"verif/engine/gosym"
 )
@@ -18,6 +19,10 @@ func main() {
 	switch os.Args[1] {
 	case "explore":
 		explore(os.Args[2:])
+	case "check":
+		os.Exit(check(os.Args[2:]))
+	case "replay":
+		os.Exit(replayCmd(os.Args[2:]))
 	default:
 		fmt.Fprintln(os.Stderr, "unknown command")
 		os.Exit(2)
@@ -49,13 +54,14 @@ func explore(args []string) {
 	solver := fs.String("solver", "z3", "")
 	maxPaths := fs.Int64("max-paths", 0, "")
 	verbose := fs.Bool("v", false, "")
+	budget := fs.Int("budget", 60, "seconds")
 	fs.Parse(args)
 	P, err := gosym.Load(*repo, loadOverlay(*repo, *harness), "verif")
 	if err != nil {
 		fmt.Fprintln(os.Stderr, "load:", err)
 		os.Exit(2)
 	}
-	res, err := P.Explore(gosym.Config{Entry: *entry, Workers: *workers, Solver: *solver, MaxPaths: *maxPaths, Verbose: *verbose, SampleMod: 1, MaxSamples: 3})
+	res, err := P.Explore(gosym.Config{Entry: *entry, Workers: *workers, Solver: *solver, MaxPaths: *maxPaths, Verbose: *verbose, SampleMod: 1, MaxSamples: 3, Deadline: time.Now().Add(time.Duration(*budget) * time.Second)})
 	if err != nil {
 		fmt.Fprintln(os.Stderr, "explore:", err)
 		os.Exit(2)
